@@ -9,6 +9,10 @@ CHECKS = {
    text="Explicit-state BFS on the real VarsManager: every history of parameter-manager operations up to depth 3 (quick) / 4 (thorough) from every configuration-order set-up (fix, tie, complex tie, shared radius, one/two-sided bounds); every transition checked against a reference relation derived from the statement and state invariants; Bound transform/inverse/slope on lattices for all bound kinds against 50-digit mpmath.",
    note="Values come from a finite menu; masks/temp blocks name real scalars only; RNG answers scripted; equal canonical states merged (canonical form = every field the manager reads).",
    technique="explicit-state BFS over operation histories on the implementation, reference relation + invariants in every state"),
+ "C17": dict(level="fault_enumeration", ref="4-C17",
+   text="(0 faults) explicit-state BFS to depth 2 (quick) / 3 (thorough) over histories of read-only computations (partial weights, interference weights, fit fractions old/new/no-grad, exhausted and abandoned factor iterations, density evaluations), override blocks with bodies and nested blocks, and persistent selection/parameter operations, on real AmplitudeModels (eager and tf.function); (1 fault) an exception at every amplitude-evaluation seam call / block body of every read-only operation from every state up to the fault depth. Post-condition after every execution: parameters bitwise, active chains, masks, factor masks, registry, and probe-event density through first-call, cached-call and new-object paths equal those of a reference world that executed only the persistent operations.",
+   note="Faults are Python exceptions at amplitude evaluation seams and block bodies; a failing restore assignment is not injected. Three-body decay groups only (thorough adds a second resonance per slot and a spin-1 final particle).",
+   technique="deviation-bounded fault enumeration + explicit-state BFS on the implementation with a differential reference world"),
 }
 
 NA_REASON = "check not built yet in this round (planned in DESIGN.md section 4)"
